@@ -503,6 +503,29 @@ func c41ClashFile(r *core.Rand, prefix, syn, level string) *descriptorpb.FileDes
 			pre := []string{"has_", "clear_", "which_", "set_"}[r.Intn(4)]
 			add(pre+"oo", plainStyle)
 		}
+		// a nested message or enum named like the CamelCase of a oneof member
+		// (the wrapper type of that member must then be renamed consistently)
+		if hasOneof && r.Chance(1, 2) {
+			for _, f := range m.Field {
+				if f.OneofIndex == nil || f.GetProto3Optional() {
+					continue
+				}
+				nn := strs.GoCamelCase(f.GetName())
+				dup := false
+				for _, n := range m.NestedType {
+					dup = dup || n.GetName() == nn
+				}
+				if dup {
+					continue
+				}
+				if r.Bool() {
+					m.NestedType = append(m.NestedType, &descriptorpb.DescriptorProto{Name: proto.String(nn)})
+				} else {
+					m.EnumType = append(m.EnumType, &descriptorpb.EnumDescriptorProto{Name: proto.String(nn), Value: []*descriptorpb.EnumValueDescriptorProto{{Name: proto.String(strings.ToUpper(nn) + fmt.Sprintf("_M%d_ZERO", mi)), Number: proto.Int32(0)}}})
+				}
+				break
+			}
+		}
 		fdp.MessageType = append(fdp.MessageType, m)
 	}
 	return fdp
